@@ -75,10 +75,15 @@ def mutate(rng, t, named):
             # the result must be weight / total all the same (D17)
             e = rng.choice(ents)
             k = rng.choice([2.0 ** 1023, 2.0 ** 1022, 1.7e308, 1e300])
-            for ap in e[1]:
-                w = b2f(ap[1])
-                if 0.0 < w <= 1.0:
-                    ap[1] = f2b(w * k)
+            if rng.random() < 0.5:
+                # every weight close to f64::MAX: with three or more actions the total exceeds 2 * MAX
+                for ap in e[1]:
+                    ap[1] = f2b(1.7976931348623157e308 * rng.uniform(0.7, 1.0))
+            else:
+                for ap in e[1]:
+                    w = b2f(ap[1])
+                    if 0.0 < w <= 1.0:
+                        ap[1] = f2b(w * k)
         elif kind == "empty_actions" and ents:
             rng.choice(ents)[1] = []
         else:
